@@ -60,3 +60,22 @@ Theorem C03_node_iter_len_unfixed_refuted :
                length (fst (node_iter_collect (S (length rest)) [] (mkIter [] rest 0%nat 0))).
 Proof. exact node_iter_len_unfixed_refuted. Qed.
 Print Assumptions C03_node_iter_len_unfixed_refuted.
+
+(* preorder walks (plain or with tokens, from any node): exactly the properly nested enter/leave
+   events of the sub-tree, every wanted element once, in document order *)
+From CsModel Require Import Preorder.
+
+Theorem C03_preorder_spec : forall g b rs p e,
+  subr g p = Some e -> fst (preorder g b rs p) = events_of b e p.
+Proof. exact preorder_spec. Qed.
+Print Assumptions C03_preorder_spec.
+
+Theorem C03_preorder_balanced : forall g b rs p e,
+  subr g p = Some e -> balanced (fst (preorder g b rs p)) [] = true.
+Proof. exact preorder_balanced. Qed.
+Print Assumptions C03_preorder_balanced.
+
+Theorem C03_descendants_spec : forall g b rs p e,
+  subr g p = Some e -> fst (descendants g b rs p) = entered (events_of b e p).
+Proof. exact descendants_spec. Qed.
+Print Assumptions C03_descendants_spec.
